@@ -12,12 +12,15 @@ for s in $seeds; do
   d=/verif/seeded/$s
   demo=$(ls $d/*.rs | head -1); name=$(basename $demo .rs)
   cmd=$(python3 -c "import json;print(json.load(open('$d/meta.json'))['demo_cmd'])" | sed 's/CARGO_TARGET_DIR=[^ ]* //')
-  crate=$(python3 -c "
-import json
-f=json.load(open('$d/meta.json'))['files_changed'][0]
-top=f.split('/')[0]
-print('deadpool' if top in ('src','tests') else 'deadpool-'+top)")
-  tdir=$WT/tests; [ "$crate" != deadpool ] && tdir=$WT/${crate#deadpool-}/tests
+  read crate tdir <<< $(python3 -c "
+import json,re
+m=json.load(open('$d/meta.json'))
+place=m.get('demo_place','')
+mm=re.search(r'((?:[\w-]+/)*tests)/[\w.-]+\.rs', place)
+tdir=mm.group(1) if mm else 'tests'
+top=tdir.split('/')[0]
+crate='deadpool' if top=='tests' else 'deadpool-'+top
+print(crate, '$WT/'+tdir)")
   ( cd $WT && git checkout -q -- . && git clean -fdq -e target
     mkdir -p $tdir && cp $demo $tdir/
     eval "$cmd" > /tmp/wt/without.log 2>&1; r0=$?
@@ -25,8 +28,19 @@ print('deadpool' if top in ('src','tests') else 'deadpool-'+top)")
     eval "$cmd" > /tmp/wt/with.log 2>&1; r1=$?
     rm -f $tdir/$(basename $demo)
     feats=""; [ "$crate" = deadpool ] && feats="--features rt_tokio_1,serde"
-    cargo test --offline -p $crate $feats > /tmp/wt/suite.log 2>&1; r2=$?
+    [ "$crate" = deadpool-postgres ] && feats="--features serde"
+    [ "$crate" = deadpool-redis ] && feats="--features serde,cluster,sentinel"
+    [ "$crate" = deadpool-diesel ] && feats="--features sqlite"
+    cargo test --offline --no-fail-fast -p $crate $feats > /tmp/wt/suite.log 2>&1; r2=$?
     if [ $r2 -ne 0 ] && [ "$crate" = deadpool ]; then sleep 1; cargo test --offline -p $crate $feats > /tmp/wt/suite.log 2>&1; r2=$?; fi
+    if [ $r2 -ne 0 ]; then
+      # tests that need a server fail with or without the change: compare the sets of failing tests
+      git apply -R $d/patch.diff
+      cargo test --offline --no-fail-fast -p $crate $feats > /tmp/wt/suite0.log 2>&1
+      git apply $d/patch.diff
+      a=$(grep -E "^test .* (FAILED|ok)$" /tmp/wt/suite0.log | sort | md5sum); b=$(grep -E "^test .* (FAILED|ok)$" /tmp/wt/suite.log | sort | md5sum)
+      [ "$a" = "$b" ] && r2=0
+    fi
     fails=$(grep -E "^test .* FAILED" /tmp/wt/suite.log | head -5 | tr '\n' ';')
     echo "{\"seed\":\"$s\",\"demo_without_patch_rc\":$r0,\"demo_with_patch_rc\":$r1,\"existing_tests_with_patch_rc\":$r2,\"failed\":\"$fails\",\"cmd\":\"$(echo $cmd | sed 's/"/\\"/g')\",\"confirmed\":$([ $r0 -eq 0 ] && [ $r1 -ne 0 ] && [ $r2 -eq 0 ] && echo true || echo false)}" > $d/confirm.json
     git checkout -q -- . )
